@@ -39,6 +39,10 @@ pub enum SizeError {
         esize_bytes: u8,
     },
 
+    /// The total size does not fit in the 40-bit total field of a V2 header
+    #[error("Total size {0} does not fit in the 5-byte total of a V2 header")]
+    TotalSizeTooLarge(u64),
+
     /// Entry count mismatch between header and parsed entries
     #[error("Entry count mismatch: header says {expected}, found {actual}")]
     EntryCountMismatch {
